@@ -255,7 +255,10 @@ def ev_lintfile(case) -> R:
     j = from_json(data, root)
     covered = {f["path"] for f in data["files"]} | j["read"]
     some_dir = os.path.dirname(roles["g"]) or os.path.dirname(roles["h"]) or "docs"
-    menu = [roles["h"], roles["f"], "LICENSE", some_dir, sorted(p for p in proj["licenses"])[0]]
+    # a symbolic link to the (possibly defective) covered file: the link itself is no covered file, and its target is not among the arguments
+    alias = "alias to f.py"
+    os.symlink(os.path.basename(roles["f"]) if os.path.dirname(roles["f"]) == "" else roles["f"], root / alias)
+    menu = [roles["h"], roles["f"], alias if case.get("base", 0) % 2 == 0 else "LICENSE", some_dir, sorted(p for p in proj["licenses"])[0]]
     if "d1-unreadable" in case["defects"]:
         menu[0] = roles["k"]
     if any(d.startswith("b") for d in case["defects"]):
